@@ -1,5 +1,11 @@
 package main
 
+import (
+	"go/ast"
+	"go/token"
+	"go/types"
+)
+
 // R03e — the reader's end-of-stream decision is schedule-independent. Every stage
 // of a pipeline reads its predecessor through (*Stdin).Read; "no data buffered" and
 // "no writer left" must be observed in ONE critical section, otherwise a writer
@@ -20,4 +26,104 @@ func init() {
 			eofGuardRule = old
 		}
 	})
+}
+
+// isEOFReturn: the return statement hands io.EOF out as the function's error — literally
+// (`return 0, io.EOF`), or through the error result variable (`err = io.EOF; return` /
+// `return 0, err`) when the nearest earlier statement of the same statement list that touches
+// that variable assigns io.EOF to it.
+func isEOFReturn(info *types.Info, fd *ast.FuncDecl, rs *ast.ReturnStmt, stack []ast.Node) bool {
+	if len(rs.Results) == 2 && isPkgObj(info, rs.Results[1], "io", "EOF") {
+		return true
+	}
+	var errObj types.Object
+	switch len(rs.Results) {
+	case 0:
+		if fd.Type.Results == nil {
+			return false
+		}
+		var names []*ast.Ident
+		for _, f := range fd.Type.Results.List {
+			names = append(names, f.Names...)
+		}
+		if len(names) != 2 {
+			return false
+		}
+		errObj = info.ObjectOf(names[1])
+	case 2:
+		id, ok := unparen(rs.Results[1]).(*ast.Ident)
+		if !ok {
+			return false
+		}
+		errObj = info.ObjectOf(id)
+		if v, isVar := errObj.(*types.Var); !isVar || v.IsField() {
+			return false
+		}
+	default:
+		return false
+	}
+	if errObj == nil {
+		return false
+	}
+	var list []ast.Stmt
+	for i := len(stack) - 1; i >= 0 && list == nil; i-- {
+		switch b := stack[i].(type) {
+		case *ast.BlockStmt:
+			list = b.List
+		case *ast.CaseClause:
+			list = b.Body
+		case *ast.CommClause:
+			list = b.Body
+		}
+	}
+	idx := topLevelIndex(list, rs)
+	if idx < 0 || list[idx] != ast.Stmt(rs) {
+		return false
+	}
+	for j := idx - 1; j >= 0; j-- {
+		if !mentions(info, list[j], errObj) {
+			continue
+		}
+		as, ok := list[j].(*ast.AssignStmt)
+		if !ok || as.Tok != token.ASSIGN || len(as.Lhs) != len(as.Rhs) {
+			return false
+		}
+		for k, l := range as.Lhs {
+			if id, isId := l.(*ast.Ident); isId && info.ObjectOf(id) == errObj {
+				return isPkgObj(info, as.Rhs[k], "io", "EOF")
+			}
+		}
+		return false
+	}
+	return false
+}
+
+// inCancelledArm: the node is only reached when the stream's context is cancelled — inside
+// `case <-X.Done():` of a select, or under a guard `X.Err() != nil` on a context.Context (the
+// non-blocking test that is true exactly when Done() is closed).
+func inCancelledArm(info *types.Info, stack []ast.Node) bool {
+	if inDoneArm(info, stack) {
+		return true
+	}
+	for _, f := range factsOf(guardsAt(info, stack)) {
+		b, ok := unparen(f.E).(*ast.BinaryExpr)
+		if !ok || (b.Op != token.NEQ && b.Op != token.EQL) || (b.Op == token.NEQ) != f.True {
+			continue
+		}
+		x, y := unparen(b.X), unparen(b.Y)
+		if tv, isNil := info.Types[x]; isNil && tv.IsNil() {
+			x, y = y, x
+		}
+		if tv, isNil := info.Types[y]; !isNil || !tv.IsNil() {
+			continue
+		}
+		call, isCall := x.(*ast.CallExpr)
+		if !isCall || len(call.Args) != 0 {
+			continue
+		}
+		if o := callee(info, call); o != nil && objIs(o, "context", "Context", "Err") {
+			return true
+		}
+	}
+	return false
 }
